@@ -37,7 +37,8 @@ def plan(tier):
             "required_counters": ["figures", "body_vertices_checked", "extent_checks", "conductor_checks",
                                   "path_trace_checks", "glyph_checks", "nonmodification_checks", "bad_kwarg_cases", "mpl_figures",
                                   "animated_figures", "animation_frames_checked", "animations_with_subsampled_path",
-                                  "failing_trace_raised", "nested_collections_drawn"]
+                                  "failing_trace_raised", "nested_collections_drawn",
+                                  "mesh_status_figures", "mesh_status_points_checked", "mesh_status_disconnected_drawn_multi_part"]
             + ["cls:" + c for c in CLASSES]}
 
 
@@ -83,6 +84,8 @@ def gen_case(rng):
     frames = None if fr < 0.35 else (int(rng.integers(1, 3)) if fr < 0.6 else sorted(set(int(x) for x in rng.integers(0, L + 1, 2))))
     case = {"specs": specs, "frames": frames, "units": str(rng.choice(["m", "m", "mm", "µm", "cm", "km", "auto"])),
             "decorations": bool(rng.random() < 0.25), "scale": scale}
+    if rng.random() < 0.08:
+        return gen_mesh_status_case(rng, case)
     if rng.random() < 0.2 and specs[0]["cls"] not in ("Collection", "Sensor", "Dipole", "CustomSource"):
         case["backend"] = "matplotlib"  # one object per figure: artists carry no object identity
         case["specs"] = specs[:1]
@@ -96,6 +99,131 @@ def gen_case(rng):
                              "maxframes": [None, 3, 4, 7][int(rng.integers(0, 4))],
                              "fps": [None, 2, 10][int(rng.integers(0, 3))]}
     return case
+
+
+def gen_mesh_status_case(rng, case):
+    """A TriangularMesh with the status displays of the documented style family `mesh` switched on: the grid,
+    the open edges, the disconnected parts and the self-intersecting facets.  The mesh is a union of 1-3 closed
+    parts (optionally one facet removed = open edges, optionally two parts overlapping = self-intersection), facets
+    and vertices in random order and winding, so that the first facet can belong to any part."""
+    from vfw.oracles import meshes as MZ
+
+    nparts = int(rng.integers(1, 4))
+    parts, overlap = [], bool(rng.random() < 0.3) and nparts > 1
+    for k in range(nparts):
+        kind = str(rng.choice(["box", "tetra", "hull", "prism"]))
+        if kind == "box":
+            V, F = MZ.box(tuple(rng.uniform(0.5, 1.5, 3)))
+        elif kind == "tetra":
+            V, F = MZ.tetra(rng)
+        elif kind == "hull":
+            V, F = MZ.convex_hull(rng)
+        else:
+            V, F = MZ.prism(int(rng.integers(3, 7)))
+        V = V - V.mean(axis=0)
+        V = V / np.abs(V).max()                     # every part fits into [-1, 1]^3
+        off = np.array([3.0 * k, 0.0, 0.0]) if not (overlap and k == 1) else np.array([0.35, 0.3, 0.25])
+        parts.append((V + off, F))
+    V, F = MZ.union(parts)
+    removed = bool(rng.random() < 0.3)
+    V, F = MZ.transform(rng, V, F, flips=bool(rng.random() < 0.5))
+    if removed:
+        F = F[1:]
+    scale = case["scale"]
+    P, Q = objs.rand_path(rng, 1, 2.0)
+    spec = {"cls": "TriangularMesh", "vertices": (V * scale).tolist(), "faces": F.tolist(),
+            "polarization": [0.1, -0.2, 0.9], "position": (np.array(P) * scale).tolist(), "orientation": Q,
+            "check_open": "ignore", "check_disconnected": "ignore", "check_selfintersecting": "ignore",
+            "reorient_faces": str(rng.choice(["ignore", "skip"]))}
+    modes = [m for m in ("grid", "open", "disconnected", "selfintersecting") if rng.random() < 0.6] or ["disconnected"]
+    return {"specs": [spec], "frames": None, "units": case["units"], "decorations": False, "scale": scale,
+            "mesh_status": {"modes": modes, "nparts": nparts, "overlap": overlap, "facet_removed": removed,
+                            "backend": str(rng.choice(["plotly", "plotly", "matplotlib"]))}}
+
+
+def check_case_mesh_status(ctx, case):
+    """show() of a TriangularMesh with status displays on: must draw (not raise), must leave vertices, faces and the
+    field as they were, and (plotly) every drawn point of the status lines/markers is a vertex of the posed mesh"""
+    import magpylib as magpy
+
+    spec, ms = case["specs"][0], case["mesh_status"]
+    try:
+        with quiet():
+            obj = objs.build(spec)
+            # the status data are computed lazily and cached on the object: compute all of them first, so that a
+            # cache filled by show() is not mistaken for a modification
+            for fn in ("check_open", "check_disconnected", "check_selfintersecting", "get_faces_subsets",
+                       "get_open_edges", "get_selfintersecting_faces"):
+                getattr(obj, fn)()
+            size = float(np.abs(np.array(spec["vertices"])).max())
+            probes = (np.array([[0.05, 0.02, -0.03], [4.1, 0.7, 1.3], [-2.0, 1.0, 0.5], [1.5, -0.2, 0.1]]) * size
+                      + np.array(spec["position"][0]))
+            B0 = np.asarray(obj.getB(probes))
+    except Exception as e:
+        ctx.inconclusive_case("setup: " + repr(e)[:100], None)
+        return
+    kw = {f"style_mesh_{m}_show": True for m in ms["modes"]}
+    kw.update(style_magnetization_show=False, style_orientation_show=False)
+    if case["units"] != "auto":
+        kw["units_length"] = case["units"]
+    before = (D.digest_many([obj]), D.digest_defaults())
+    V0, F0 = np.array(obj.vertices), np.array(obj.faces)
+    ctx.count("mesh_status_figures")
+    for m in ms["modes"]:
+        ctx.count("mesh_status_mode:" + m)
+    if ms["nparts"] > 1 and "disconnected" in ms["modes"]:
+        ctx.count("mesh_status_disconnected_drawn_multi_part")
+    key = {"cls": "TriangularMesh", "mesh_status": True, "backend": ms["backend"]}
+    fig = None
+    try:
+        with quiet():
+            if ms["backend"] == "plotly":
+                fig = magpy.show(obj, backend="plotly", return_fig=True, **kw)
+            else:
+                import matplotlib.pyplot as plt
+                f = magpy.show(obj, backend="matplotlib", return_fig=True, **kw)
+                plt.close(f)
+    except Exception as e:
+        ctx.violation({**key, "kind": "show-raised", "type": type(e).__name__,
+                       "function": (exc_info(e)["where"] or ["?"])[-1].split(":")[-1]}, case, exc_info(e))
+        return
+    ctx.evaluated(case, nontrivial=True)
+    ctx.count("nonmodification_checks")
+    after = (D.digest_many([obj]), D.digest_defaults())
+    same_arrays = np.array_equal(V0, np.array(obj.vertices)) and np.array_equal(F0, np.array(obj.faces))
+    if after != before or not same_arrays:
+        ctx.violation({**key, "kind": "show-modified-objects-or-defaults"}, case,
+                      {"objects": D.diff(before[0], after[0]), "defaults": D.diff(before[1], after[1]), "same_arrays": bool(same_arrays)})
+        return
+    with quiet():
+        B1 = np.asarray(obj.getB(probes))
+    if not np.allclose(B0, B1, rtol=1e-9, atol=1e-12 * float(np.abs(B0).max() + 1e-300), equal_nan=True):
+        ctx.violation({**key, "kind": "field-changed-by-show"}, case, {"B_before": B0.tolist(), "B_after": B1.tolist()})
+        return
+    if fig is None:
+        return
+    title = fig.layout.scene.xaxis.title.text or ""
+    m = re.search(r"\(([^)]+)\)", title)
+    if not m or m.group(1) not in UNIT:
+        ctx.violation({**key, "kind": "axis-title-without-known-unit"}, case, {"title": title})
+        return
+    unit = UNIT[m.group(1)]
+    rot = R.from_quat(np.array(spec["orientation"][0]))
+    Vg = rot.apply(V0) + np.array(spec["position"][0])
+    tol = 1e-6 * size
+    for tr in fig.data:
+        if (tr.legendgroup or "") != repr(obj):
+            continue
+        pts = trace_points(tr)
+        pts = pts[np.isfinite(pts).all(axis=1)] * unit
+        if not len(pts):
+            continue
+        d = np.linalg.norm(pts[:, None, :] - Vg[None, :, :], axis=2).min(axis=1)
+        ctx.count("mesh_status_points_checked", len(pts))
+        if d.max() > tol:
+            ctx.violation({**key, "kind": "mesh-status-point-not-a-vertex", "trace": tr.type}, case,
+                          {"worst": float(d.max()), "size": size, "trace_name": tr.name})
+            return
 
 
 def expected_indices(frames, L):
@@ -408,6 +536,8 @@ def check_case_anim(ctx, case):
 def check_case(ctx, case):
     import magpylib as magpy
 
+    if case.get("mesh_status"):
+        return check_case_mesh_status(ctx, case)
     if case.get("backend") == "matplotlib":
         return check_case_mpl(ctx, case)
     if case.get("animation"):
